@@ -138,7 +138,8 @@ func (m *Model) isLib(f *ssa.Function) bool {
 	return t.Pkg == m.P.Leader
 }
 
-// returnsPrevClaim: every non-false result #0 of f is the claim's value as loaded
+// returnsPrevClaim: the result #0 of f is exactly "this call turned a standing claim into false":
+// no constant false is returned after the claim was cleared, and every non-false result #0 of f is the claim's value as loaded
 // under the write-lock hold in which f (or its callee) cleared the claim.
 func (m *Model) returnsPrevClaim(f *ssa.Function, depth int) bool {
 	if f == nil || f.Blocks == nil || depth > 4 {
@@ -161,6 +162,19 @@ func (m *Model) returnsPrevClaim(f *ssa.Function, depth int) bool {
 		v := returnValue(ret, 0)
 		if k, isC := constBool(v); isC {
 			if k {
+				return false
+			}
+			// a constant false must not follow the clearing of the claim: the caller would take
+			// "claim was already false" for granted and skip the demotion callback
+			lost := false
+			eachInstr(f, func(in ssa.Instruction) {
+				if val, isConst, ok := m.claimStore(in); ok && isConst && !val {
+					if reachableAfter(in, func(x ssa.Instruction) bool { return x == ssa.Instruction(ret) }) != nil {
+						lost = true
+					}
+				}
+			})
+			if lost {
 				return false
 			}
 			continue
